@@ -1351,3 +1351,263 @@ e2_check!(
         "probe:liveness-probe-delivered"
     ]
 );
+
+// ------------------------------------------------------------------------------------------
+// C08: quit terminates and leaves nothing behind
+
+use crate::child::{ChildSpec, SigReact};
+use crate::e1::{self, Op};
+use crate::e2::{JobPlan, QuitPlan};
+
+pub fn gen_quit(rng: &mut Rng) -> E2Scn {
+    let mut s = E2Scn { family: "quit".into(), throttle: *rng.pick(&[0u64, 10]), probe: false, ..Default::default() };
+    let n_jobs = match rng.below(10) {
+        0 => 0,
+        1..=6 => 1,
+        7 | 8 => 2,
+        _ => 3,
+    };
+    let quit_batch = rng.range(0, 2) as u32;
+    let graceful = if rng.chance(1, 2) { None } else { Some((*rng.pick(&[15i32, 2, 1, 10]), *rng.pick(&[0u64, 1, 10, 100, 1000, 10_000]))) };
+    for _ in 0..n_jobs {
+        let at_batch = rng.range(0, quit_batch as u64) as u32;
+        let react = match rng.below(4) {
+            0 => SigReact::Exit(0),
+            1 => SigReact::Exit(*rng.pick(&[1u64, 5, 50, 500])),
+            _ => SigReact::Ignore,
+        };
+        let self_exit = if rng.chance(1, 4) { Some(*rng.pick(&[0u64, 5, 50, 300])) } else { None };
+        let grandchildren = if rng.chance(1, 3) { rng.range(1, 2) as u8 } else { 0 };
+        let child = ChildSpec { self_exit, code: 0, on_signal: react, grandchildren, ..Default::default() };
+        // job state at the moment of the quit
+        let mut ops: Vec<Op> = Vec::new();
+        let mut later: Vec<(u64, Op)> = Vec::new();
+        match rng.below(9) {
+            0 => {} // never started
+            1 | 2 => ops.push(Op::Start), // running (or finished if it exits by itself)
+            3 => {
+                // mid graceful stop with an armed timer
+                ops.push(Op::Start);
+                ops.push(Op::StopSig { sig: 3, grace: *rng.pick(&[5u64, 50, 500, 5000]) });
+            }
+            4 => {
+                // mid graceful restart
+                ops.push(Op::Start);
+                ops.push(Op::TryRestartSig { sig: 3, grace: *rng.pick(&[5u64, 50, 500]) });
+            }
+            5 => {
+                // deleted but not yet collected
+                ops.push(Op::Start);
+                ops.push(Op::Delete);
+            }
+            6 => {
+                // pending queued controls that take time
+                ops.push(Op::Start);
+                ops.push(Op::RunAsync { ms: *rng.pick(&[5u64, 50, 200]) });
+                ops.push(Op::Run);
+            }
+            7 => {
+                // controls still arriving from another task around the quit
+                ops.push(Op::Start);
+                later.push((*rng.pick(&[0u64, 1, 5, 50]), Op::Restart));
+                later.push((*rng.pick(&[0u64, 1, 5, 50]), Op::Signal { sig: 12 }));
+            }
+            _ => {
+                ops.push(Op::Start);
+                ops.push(Op::Stop);
+            }
+        }
+        s.jobs.push(JobPlan {
+            at_batch,
+            grouped: rng.chance(1, 2),
+            session: rng.chance(1, 8),
+            children: vec![child],
+            ops,
+            later,
+            hold_clone: rng.chance(1, 3),
+        });
+    }
+    s.quit = Some(QuitPlan { at_batch: quit_batch, graceful });
+    // events that produce batches 0..=quit_batch, spaced so that jobs are caught at different points
+    let mut steps = Vec::new();
+    for b in 0..=quit_batch + 1 {
+        steps.push(PStep { gap: if b == 0 { 0 } else { *rng.pick(&[1u64, 3, 20, 60, 400]) }, kind: PKind::Send { id: 10 + b, prio: 3, empty: false } });
+    }
+    s.producers = vec![steps];
+    s.handler_async = rng.chance(1, 3);
+    if s.handler_async {
+        s.handler_durs = vec![*rng.pick(&[0u64, 2, 30])];
+    }
+    s
+}
+
+pub fn oracle_c08(scn: &E2Scn, d: &D2, out: &RunOut, stats: &mut Stats) -> Vec<Violation> {
+    let mut vs = Vec::new();
+    let Some(qp) = &scn.quit else { return vs };
+    let Some(q) = d.quit_req.iter().find(|r| r.2 != "final") else {
+        return vs;
+    };
+    let qbatch_end = d.batch_end.get(qp.at_batch as usize).map(|e| e.0).unwrap_or(q.0);
+    let manner = if qp.graceful.is_some() { "graceful" } else { "abort" };
+    stats.hit(if qp.graceful.is_some() { "probe:graceful-quit" } else { "probe:abort-quit" });
+    // children and what was going on at the quit
+    let ed = e1::digest(out);
+    let mut remaining_max = 0u64;
+    for (ji, plan) in scn.jobs.iter().enumerate() {
+        if plan.at_batch > qp.at_batch {
+            continue;
+        }
+        if plan.at_batch == qp.at_batch {
+            stats.hit("probe:quit-in-the-action-that-created-the-job");
+        }
+        if plan.hold_clone {
+            stats.hit("probe:handle-clone-held-elsewhere");
+        }
+        let kids: Vec<&e1::ChildRec> = ed.children.iter().filter(|c| c.job == ji as u8 && c.spawn_seq > 0 && c.spawn_t <= q.0).collect();
+        let alive_at_q = kids.iter().any(|c| c.exit.map(|e| e.0 > q.0).unwrap_or(true));
+        if kids.is_empty() {
+            stats.hit("probe:quit-with-never-started-job");
+        } else if alive_at_q {
+            stats.hit("probe:quit-with-running-job");
+        } else {
+            stats.hit("probe:quit-with-finished-job");
+        }
+        // remainder of a pending graceful stop at q, plus queued time-consuming work
+        let mut rem = 0u64;
+        for op in plan.ops.iter().chain(plan.later.iter().map(|l| &l.1)) {
+            match op {
+                Op::StopSig { grace, .. } | Op::TryRestartSig { grace, .. } | Op::RestartSig { grace, .. } => {
+                    // armed if its signal was delivered to a child still alive at q
+                    for c in &kids {
+                        if let Some(sg) = c.signals.iter().find(|s| s.2 == 3 && s.3) {
+                            let deadline = sg.0 + grace;
+                            if deadline > q.0 && c.exit.map(|e| e.0 > q.0).unwrap_or(true) {
+                                rem = rem.max(deadline - q.0);
+                                stats.hit("probe:quit-with-armed-timer");
+                            }
+                        }
+                    }
+                }
+                Op::RunAsync { ms } => {
+                    rem += ms;
+                    stats.hit("probe:quit-with-pending-async-control");
+                }
+                Op::Delete => stats.hit("probe:quit-with-deleted-job"),
+                _ => {}
+            }
+        }
+        remaining_max = remaining_max.max(rem);
+    }
+    let _ = &ed;
+    match &d.main_end {
+        None => vs.push(Violation::new("quit-never-terminates", manner, format!("{manner} quit requested at t={} but main never ended", q.0))),
+        Some((mt, _, ok, msg)) => {
+            if !*ok {
+                vs.push(Violation::new("quit-returned-error", manner, format!("main ended with {msg}")));
+            }
+            match qp.graceful {
+                None => {
+                    if *mt != qbatch_end {
+                        vs.push(Violation::new("abort-quit-not-prompt", "", format!("abort quit: handler returned at t={qbatch_end} but main ended at t={mt}")));
+                    }
+                }
+                Some((_, grace)) => {
+                    let bound = qbatch_end + remaining_max + grace + 2;
+                    if *mt > bound {
+                        vs.push(Violation::new(
+                            "graceful-quit-late",
+                            "",
+                            format!("graceful quit (grace {grace} ms): handler returned at t={qbatch_end}, pending graceful stop / queued work {remaining_max} ms, bound t<={bound}, main ended at t={mt}"),
+                        ));
+                    }
+                }
+            }
+        }
+    }
+    // the command is spawned with kill-on-drop and, when asked for, in its own process group / session
+    for r in &out.hist {
+        if let Ev::Spawn { job, child, kill_on_drop, group, session, .. } = &r.ev {
+            if let Some(plan) = scn.jobs.get(*job as usize) {
+                let want_session = plan.session;
+                let want_group = plan.grouped && !plan.session;
+                if !*kill_on_drop || *group != want_group || *session != want_session {
+                    vs.push(Violation::new(
+                        "wrong-process-wrappers",
+                        "",
+                        format!("child {child} of job {job} (grouped={}, session={}) spawned with kill_on_drop={kill_on_drop} group={group} session={session}", plan.grouped, plan.session),
+                    ));
+                }
+            }
+        }
+    }
+    // nothing survives the shutdown
+    let mut spawned: BTreeMap<u32, (u8, bool)> = BTreeMap::new(); // child -> (job, kill_on_drop)
+    let mut dead: BTreeSet<u32> = BTreeSet::new();
+    let mut dropped_unreaped_no_kod: Vec<u32> = Vec::new();
+    for r in &out.hist {
+        match &r.ev {
+            Ev::Spawn { job, child, kill_on_drop, .. } => {
+                spawned.insert(*child, (*job, *kill_on_drop));
+            }
+            Ev::Exit { child, .. } => {
+                dead.insert(*child);
+            }
+            Ev::Dropped { child, reaped, .. } => {
+                if !*reaped && !spawned.get(child).map(|s| s.1).unwrap_or(true) {
+                    dropped_unreaped_no_kod.push(*child);
+                }
+            }
+            _ => {}
+        }
+    }
+    for (c, (job, _)) in &spawned {
+        if !dead.contains(c) {
+            vs.push(Violation::new("process-survives-shutdown", manner, format!("child {c} of job {job} was still alive after main ended and the runtime was shut down")));
+        }
+    }
+    // after a graceful quit of a grouped command every member of the group is dead
+    if qp.graceful.is_some() {
+        for r in &out.hist {
+            if let Ev::Note { what: "group-members-alive", a, b } = &r.ev {
+                stats.hit("probe:grouped-command-with-grandchildren");
+                // only children that were alive (spawned, not yet ended) when the quit was requested are the quit's business
+                let c = &ed.children[*a as usize];
+                // (a leader that ended by itself before or at the quit instant leaves its orphans beyond the supervisor's reach)
+                let alive_at_q = c.spawn_t <= q.0 && c.exit.map(|e| e.0 > q.0).unwrap_or(true);
+                // a leader that ends by itself (before the stop signal goes out, or inside the grace period while
+                // the other members ignore the signal) leaves orphans nobody force-kills; everything else must be gone
+                let natural = c.exit.map(|e| e.1 < 1000).unwrap_or(false);
+                if *b > 0 && alive_at_q && natural {
+                    stats.hit("probe:group-members-orphaned-by-leader-exit");
+                    continue;
+                }
+                if *b > 0 && alive_at_q {
+                    vs.push(Violation::new("group-members-survive-graceful-quit", "", format!("{b} other member(s) of child {a}'s process group were still alive after the graceful quit")));
+                }
+            }
+        }
+    }
+    vs
+}
+
+e2_check!(
+    C08,
+    "C08",
+    80_000,
+    10_000_000,
+    |rng: &mut Rng, _idx: u64| gen_quit(rng),
+    |scn: &E2Scn, d: &D2, out: &RunOut, stats: &mut Stats| oracle_c08(scn, d, out, stats),
+    vec![
+        "probe:graceful-quit",
+        "probe:abort-quit",
+        "probe:quit-in-the-action-that-created-the-job",
+        "probe:handle-clone-held-elsewhere",
+        "probe:quit-with-never-started-job",
+        "probe:quit-with-running-job",
+        "probe:quit-with-finished-job",
+        "probe:quit-with-armed-timer",
+        "probe:quit-with-pending-async-control",
+        "probe:quit-with-deleted-job",
+        "probe:grouped-command-with-grandchildren"
+    ]
+);
